@@ -20,6 +20,7 @@ func init() {
 			ruleC05R4(r)
 			ruleE1(r) // R5 (shared with C08)
 			ruleC05R6(r)
+			ruleErrorDiscipline(r, "R7")
 		},
 	})
 }
